@@ -922,8 +922,25 @@ func (x *Exec) goStmt(fr *Frame, st *State, t *ssa.Go) {
 	keys := x.p.effects.callEffects(fr.fn, t)
 	x.havocKeys(st, keys)
 	if hc := x.hookContract(fr); hc != nil && len(hc.OnGo) > 0 {
-		x.applyGhostEffects(fr, st, hc.OnGo, "true", nil)
+		var effs []*EffectSpec
+		for _, ef := range hc.OnGo {
+			if ef.Target == "" || goTargets(t, fr.fn, ef.Target) {
+				effs = append(effs, ef)
+			}
+		}
+		x.applyGhostEffects(fr, st, effs, "true", nil)
 	}
+}
+
+// goTargets: the go statement starts the closure <fn>$suffix (suffix like "$3").
+func goTargets(t *ssa.Go, fn *ssa.Function, suffix string) bool {
+	var cf *ssa.Function
+	if mc, ok := t.Call.Value.(*ssa.MakeClosure); ok {
+		cf, _ = mc.Fn.(*ssa.Function)
+	} else if f := t.Call.StaticCallee(); f != nil {
+		cf = f
+	}
+	return cf != nil && cf.Name() == fn.Name()+suffix
 }
 
 // ---------- defers ----------
